@@ -450,6 +450,7 @@ func checkC02(w *World, r *Report) {
 
 	checkR02_2(w, r)
 	checkSharedCounters(w, r, "R02.4", fns, reach, isShared, roots)
+	checkLocksNotCopied(w, r)
 	checkLockLeaks(w, r, la, "R02.3")
 	// the pool hand-off rule
 	checkR01_4(w, r)
@@ -914,4 +915,41 @@ func checkSharedCounters(w *World, r *Report, rule string, fns []*ssa.Function, 
 	if n == 0 {
 		r.ok(rule, "(package)", "no return is decided by a shared counter", "-", fmt.Sprintf("%d shared integer location(s) written from the concurrent roots; none of them controls a return or panic", len(written)), len(written) > 0)
 	}
+}
+
+// checkLocksNotCopied — R02.6: a lock protects only if everybody locks the same one.  No function
+// receives by value (receiver or parameter) a struct of the package that contains a sync.Mutex or
+// sync.RWMutex: the callee would lock its private copy of the mutex while reading the shared map
+// behind it unprotected.
+func checkLocksNotCopied(w *World, r *Report) {
+	hasLock := func(t types.Type) bool {
+		st, ok := t.Underlying().(*types.Struct)
+		if !ok {
+			return false
+		}
+		for i := 0; i < st.NumFields(); i++ {
+			ft := st.Field(i).Type()
+			if isNamed(ft, "sync", "Mutex") || isNamed(ft, "sync", "RWMutex") {
+				return true
+			}
+		}
+		return false
+	}
+	n := 0
+	for _, fn := range w.pkgFuncs() {
+		if fn.Synthetic != "" {
+			continue
+		}
+		for _, p := range fn.Params {
+			nt, ok := p.Type().(*types.Named)
+			if !ok || nt.Obj().Pkg() == nil || nt.Obj().Pkg().Path() != twigPath {
+				continue
+			}
+			n++
+			if hasLock(nt) {
+				r.bad("R02.6", ssaName(fn), "lock-bearing "+nt.Obj().Name()+" received by value", w.posOf(fn.Pos()), "the function gets a copy of a struct that contains a mutex ("+p.Name()+" "+nt.Obj().Name()+"): the lock it takes is the copy's, so the shared state behind the original is read while another goroutine may be writing it")
+			}
+		}
+	}
+	r.ok("R02.6", "(package)", "no struct with a mutex is passed by value", "-", fmt.Sprintf("%d by-value struct parameters/receivers examined", n), true)
 }
